@@ -305,6 +305,8 @@ func colValues(col string, trueSize int, wide bool) []string {
 				"//", "/0", "/3", "/35", "/99999999999999", "/123456789012345", "/-1", "/x", "/0/", " //", "/SYM64/", "__.SYMDEF", "__.SYMDEF SORTED",
 				// BSD: the name is the first <len> bytes of the data
 				"#1/0", "#1/3", "#1/20", "#1/99999999999", "#1/-1", "#1/x",
+				// tar-shaped and nearly tar-shaped names (IsTarfile / Tarfile are called on every member)
+				"a.tar", "a.tar.gz", "a.tar.", ".tar", "a.tar.gz.x", "x.tarball", "a.tar.zst", "a.tar.g/z", "a.tar/",
 				// NUL inside the column
 				"a\x00b", "\x00//", "/\x00", "//\x00")
 			raw = dedupExcept(append(raw, auditNames()...), "\x01never")
